@@ -5,7 +5,7 @@ from tools import ks
 from tools.vlib import hx
 
 MODULE = "PropC12"
-THEOREMS = ["C12_code_conforms", "C12_lockset_sound", "C12_discipline_tags", "C12_discipline_ports_and_slots", "C12_only_accessors", "C12_no_writes_to_package_variables", "C12_tags_refuted_before_repair", "C12_feeder_refuted_before_repair", "C12_cone_conforms", "C12_shared_ip_half_done_refuted"]
+THEOREMS = ["C12_code_conforms", "C12_lockset_sound", "C12_discipline_tags", "C12_discipline_ports_and_slots", "C12_only_accessors", "C12_no_writes_to_package_variables", "C12_tags_refuted_before_repair", "C12_feeder_refuted_before_repair", "C12_cone_conforms", "C12_shared_ip_half_done_refuted", "C12_no_goroutine_captures_a_loop_variable"]
 
 
 def build(rng, i):
